@@ -30,6 +30,7 @@ import (
 
 	"verifmc/core"
 	"verifmc/node"
+	"verifmc/vorder"
 
 	"github.com/LemoFoundationLtd/lemochain-core/chain/params"
 	"github.com/LemoFoundationLtd/lemochain-core/store"
@@ -60,7 +61,7 @@ func setTier() {
 	all5 := []string{"g", "c1", "c2", "c3", "c4"}
 	// fill: from the genesis list [g:0] upwards — the list fills, overflows, empties again
 	addA(&scenA{Name: "A:fill", Cands: []string{"g", "c1", "c2", "c3"}, Votes: []int64{0, 1, 2}, RegVotes: []int64{1, 2}, MaxOps: 1,
-		MaxRestarts: 1, Depth: pick(4, 6)})
+		MaxRestarts: 1, Depth: pick(4, 7)})
 	// full1: a full list with one candidate outside; one op per block incl. touches; restart anywhere
 	addA(&scenA{Name: "A:full1", Cands: all5, Votes: []int64{0, 1, 2, 3}, RegVotes: []int64{1, 3}, MaxOps: 1, Touch: true, RegUnreg: true,
 		MaxRestarts: 1, Depth: pick(3, 4), Prefix: prefix3})
@@ -75,7 +76,7 @@ func setTier() {
 		AnyParent: true, Unconf: true, MaxUnconf: 4, MaxRestarts: 1, Depth: 3, Prefix: prefix3})
 	// crash: process death inside SetStableBlock
 	addA(&scenA{Name: "A:crash", Cands: all5, Votes: []int64{0, 1, 2, 3}, RegVotes: []int64{1, 3}, MaxOps: 1, Crash: true,
-		MaxRestarts: 1, Depth: pick(2, 3), Prefix: prefix3})
+		MaxRestarts: 1, Depth: pick(2, 4), Prefix: prefix3})
 	// wide: one block with up to three ops over six candidates, on a never restarted and on a restarted database
 	wide := []string{"g", "c1", "c2", "c3", "c4", "c5"}
 	addA(&scenA{Name: "A:wide", Cands: wide, Votes: []int64{0, 1, 2, 3}, RegVotes: []int64{1, 2, 3}, MaxOps: pick(2, 3), Touch: true,
@@ -88,28 +89,59 @@ func setTier() {
 		addA(&scenA{Name: "A:fork4", Cands: []string{"c1", "c3", "c4"}, Votes: []int64{1, 4}, RegVotes: []int64{2}, MaxOps: 1, Empty: true,
 			AnyParent: true, Unconf: true, MaxUnconf: 4, MaxRestarts: 1, Depth: 4, Prefix: prefix3})
 		addA(&scenA{Name: "A:tree", Cands: []string{"c1", "c4"}, Votes: []int64{1}, RegVotes: []int64{2}, MaxOps: 1,
-			AnyParent: true, Unconf: true, MaxUnconf: 5, MaxRestarts: 1, Depth: 5, Prefix: prefix3})
+			AnyParent: true, Unconf: true, MaxUnconf: 6, MaxRestarts: 1, Depth: 6, Prefix: prefix3})
 	}
 	// the scenario the shrinker and hand-written replays use: no prefix, everything executable is allowed
 	scenariosA["A:free"] = &scenA{Name: "A:free", Cands: wide, Votes: []int64{0, 1, 2, 3, 4}, RegVotes: []int64{1, 2, 3}, MaxOps: 3, Touch: true, RegUnreg: true,
 		Empty: true, AnyParent: true, Unconf: true, MaxUnconf: 9, MaxRestarts: 9, Crash: true, Depth: 0}
 	setTierB(th)
+	// other map iteration orders: the blocks with several ops / several transactions are where a map
+	// holds several keys (VoteTop.MergeCandidates, the persisted-candidate cache at startup,
+	// Manager.Save, MergeChangeLogs, ChangeVotesByBalance)
+	for p := 2; p <= vorder.Policies; p++ {
+		orderVariants = append(orderVariants, fmt.Sprintf("A:wide@p%d", p), fmt.Sprintf("A:wide-rs@p%d", p))
+	}
+	if th {
+		orderVariants = append(orderVariants, "A:full2@p2", "A:full2d@p2", "A:chain@p2", "B:pairs@p2", "B:term@p2")
+	}
 }
 
+// orderVariants: scenarios that are explored a second time (or more) under other controlled map
+// iteration orders ("<scenario>@p<policy>", see mc/vorder). Every other history runs under policy 1
+// (every instrumented map loop in sorted key order), so that the exploration is deterministic.
+var orderVariants []string
+
+// splitScenario separates "<scenario>@p<N>" into the scenario name and the iteration-order policy.
+func splitScenario(name string) (base string, policy int) {
+	if i := strings.Index(name, "@p"); i >= 0 {
+		p, err := strconv.Atoi(name[i+2:])
+		if err != nil || p < 1 || p > vorder.Policies {
+			panic(errInvalidHistory)
+		}
+		return name[:i], p
+	}
+	return name, 1
+}
+
+// rootEvents: layer B first (its snapshot blocks sit deep in a history; when a deadline cuts a depth
+// short, the cut falls on the wide layer A scenarios), then layer A, then the order variants.
 func rootEvents() []string {
-	var out []string
+	var a, b []string
 	for n := range scenariosA {
 		if n != "A:free" {
-			out = append(out, n)
+			a = append(a, n)
 		}
 	}
 	for n := range scenariosB {
 		if n != "B:free" {
-			out = append(out, n)
+			b = append(b, n)
 		}
 	}
-	sort.Strings(out)
-	return out
+	sort.Strings(a)
+	sort.Strings(b)
+	v := append([]string{}, orderVariants...)
+	sort.Strings(v)
+	return append(append(b, a...), v...)
 }
 
 // ---------------------------------------------------------------------------------------------
@@ -118,6 +150,9 @@ func run(hist []string) core.Outcome {
 	if len(hist) == 0 {
 		return core.Outcome{Key: "root", Enabled: rootEvents()}
 	}
+	_, policy := splitScenario(hist[0])
+	vorder.SetPolicy(policy)
+	defer vorder.SetPolicy(1)
 	switch {
 	case strings.HasPrefix(hist[0], "A:"):
 		return runLayerA(hist)
@@ -189,13 +224,18 @@ func kindSeqA(evs []string) string {
 }
 
 func toFree(hist []string) []string {
-	if strings.HasPrefix(hist[0], "A:") {
-		sc := scenariosA[hist[0]]
-		out := []string{"A:free"}
+	base, policy := splitScenario(hist[0])
+	suffix := ""
+	if policy != 1 {
+		suffix = fmt.Sprintf("@p%d", policy)
+	}
+	if strings.HasPrefix(base, "A:") {
+		sc := scenariosA[base]
+		out := []string{"A:free" + suffix}
 		out = append(out, sc.Prefix...)
 		return append(out, hist[1:]...)
 	}
-	return toFreeB(hist)
+	return append([]string{"B:free" + suffix}, hist[1:]...)
 }
 
 func minimise(o core.Outcome, hist []string) core.Outcome {
@@ -275,6 +315,10 @@ func minimise(o core.Outcome, hist []string) core.Outcome {
 			fp += kindSeqA(min[1:])
 		} else {
 			fp += kindSeqB(min[1:])
+		}
+		if _, policy := splitScenario(min[0]); policy != 1 {
+			// the case needed another map iteration order than the sorted one
+			fp += fmt.Sprintf("/map-order-policy=%d", policy)
 		}
 		what := hit.What
 		if !stable {
@@ -430,16 +474,27 @@ func main() {
 			maxDepth = d
 		}
 	}
+	for _, v := range orderVariants {
+		base, _ := splitScenario(v)
+		if s := scenariosA[base]; s != nil && s.Depth > maxDepth {
+			maxDepth = s.Depth
+		}
+		if s := scenariosB[base]; s != nil && s.depth() > maxDepth {
+			maxDepth = s.depth()
+		}
+	}
+	r.Extra["map_iteration_order"] = map[string]interface{}{"default_policy": 1, "variants": orderVariants,
+		"meaning": "policy 1 = every instrumented map loop in sorted key order, 2 = reversed, 3..6 = the other permutations (all orders for maps of <= 3 keys), see mc/vorder"}
 	r.Extra["scenarios"] = sc
 	r.Extra["list_size_limit"] = listLimit
 	if os.Getenv("C10_NO_BUDGET_CAP") != "" {
 		// measurement runs
 	} else if core.Thorough() {
-		if core.Opt.Budget > 18*time.Minute {
-			core.Opt.Budget = 18 * time.Minute
+		if core.Opt.Budget > 19*time.Minute {
+			core.Opt.Budget = 19 * time.Minute
 		}
-	} else if core.Opt.Budget > 150*time.Second {
-		core.Opt.Budget = 150 * time.Second
+	} else if core.Opt.Budget > 200*time.Second {
+		core.Opt.Budget = 200 * time.Second
 	}
 	core.BFS(r, core.BFSConfig{Prop: prop, Run: safe, MaxDepth: maxDepth + 1, Subprocess: true, RecycleEvery: 2000, PerRunLimit: 180 * time.Second,
 		DiedFingerprint: func(hist []string, tail string) *core.Violation {
